@@ -1,6 +1,7 @@
 package main
 
 import (
+	"go/token"
 	"fmt"
 	"go/types"
 	"math/big"
@@ -14,6 +15,7 @@ type SpecEnv struct {
 	st         *State
 	old        *State
 	loopPre    *State
+	anchorPos  token.Pos
 	fr         *Frame
 	fn         *ssa.Function
 	vars       map[string]Val
@@ -424,6 +426,27 @@ func (e *SpecEnv) findCell(name string) *Cell {
 			if st, ok := in.(*ssa.Store); ok {
 				if a, ok := st.Addr.(*ssa.Alloc); ok && a.Comment == "rangeindex" {
 					return fr.allocCell[a]
+				}
+			}
+		}
+	}
+	if e.anchorPos.IsValid() && e.curLoop == nil {
+		// a clause anchored at a source position (assert before call): a name means the variable that is
+		// in scope at that position, as the Go type checker resolves it
+		if pkg := pkgOf(fr.fn); pkg != nil {
+			if sc := pkg.Pkg.Scope().Innermost(e.anchorPos); sc != nil {
+				if _, obj := sc.LookupParent(name, e.anchorPos); obj != nil {
+					if v, ok := obj.(*types.Var); ok {
+						for _, b := range fr.fn.Blocks {
+							for _, in := range b.Instrs {
+								if a, ok := in.(*ssa.Alloc); ok && a.Comment == name && a.Pos() == v.Pos() {
+									if c, ok := fr.allocCell[a]; ok {
+										return c
+									}
+								}
+							}
+						}
+					}
 				}
 			}
 		}
